@@ -164,6 +164,15 @@ class C18(Check):
         return self.tmp
 
     def generate(self, rng, tier, shard, nshards):
+        # the file-name classes (common.FILE_NAME_CLASSES) are taken in turn by the cases that write to a path
+        turn = shard
+        for case in self._gen_cases(rng, tier, shard, nshards):
+            if case.get('mode') == 'file':
+                case = dict(case, fsel=turn)
+                turn += 1
+            yield case
+
+    def _gen_cases(self, rng, tier, shard, nshards):
         n = 8400 if tier == 'quick' else 10 ** 7
         nfiles = 14 if tier == 'quick' else 60
         skinds = ['plain', 'blank', 'quote', 'escape', 'sep', 'unicode', 'adversarial', 'mixed', 'control']
@@ -255,7 +264,7 @@ class C18(Check):
             enc = case['encoding']
             out.tags.append('enc=%s' % enc)
             from ..common import file_path
-            path = file_path(self._tmpdir(), 'f.csv', '.csv', case['rows']['rseed'] // 5, out)
+            path = file_path(self._tmpdir(), 'f.csv', '.csv', case.get('fsel', 0), out)
             if os.path.exists(path):
                 os.unlink(path)
             early = None
